@@ -345,7 +345,7 @@ static const struct { const char *name; int m[6]; } XF[] = {    /* 16.16: xx xy 
 };
 #define NXF ((int)(sizeof XF / sizeof XF[0]))
 static const int XSRC[] = { 0, 1, 6, 8, 2, 3 };          /* a8r8g8b8 x8r8g8b8 r5g6b5 a8 a8b8g8r8 x8b8g8r8 */
-static const int XMASK[] = { 0, 1, 2 };                  /* none solid a8 */
+static const int XMASK[] = { 0, 1, 2, 4 };               /* none solid a8 a8r8g8b8:ca (the iterators see the mask: a component-alpha pixel with alpha 0 still lets colour through) */
 static const int XDST[] = { 0, 1, 6, 8, 2, 3 };
 static const int XOPS[] = { PIXMAN_OP_SRC, PIXMAN_OP_OVER, PIXMAN_OP_ADD, PIXMAN_OP_OUT_REVERSE, PIXMAN_OP_IN };
 typedef struct { int full; } p3_ctx;
@@ -353,7 +353,7 @@ static void p3_case(uint64_t idx, void *vctx)
 {
     p3_ctx *c = vctx;
     int rep = (int)(idx % 4); idx /= 4; int fil = (int)(idx % 4); idx /= 4; int xi = (int)(idx % NXF); idx /= NXF;
-    int di = XDST[idx % 6]; idx /= 6; int mi = XMASK[idx % 3]; idx /= 3; int si = XSRC[idx % 6]; idx /= 6; int op = XOPS[idx % 5]; idx /= 5;
+    int di = XDST[idx % 6]; idx /= 6; int mi = XMASK[idx % 4]; idx /= 4; int si = XSRC[idx % 6]; idx /= 6; int op = XOPS[idx % 5]; idx /= 5;
     int on_mask = (int)idx;     /* 0: transform on the source; 1: on the mask (only for a8 masks) */
     if (on_mask && mi != 2) return;
     pixman_transform_t t; pixman_transform_init_identity(&t);
@@ -678,7 +678,7 @@ int main(int argc, char **argv)
     vf_space_run("phase2-fast-path-combinations-x-loop-geometry", (uint64_t)c2.n, p2_case, &c2);
 
     p3_ctx c3 = { th ? 1 : 0 };
-    vf_space_run("phase3-transformed", (uint64_t)4 * 4 * NXF * 6 * 3 * 6 * 5 * 2, p3_case, &c3);
+    vf_space_run("phase3-transformed", (uint64_t)4 * 4 * NXF * 6 * 4 * 6 * 5 * 2, p3_case, &c3);
     vf_space_run("phase4-blt-fill", 6 * 20 * 40, p4_case, NULL);
     vf_space_run("phase5-rotations-covering-source", 3 * 4 * 16 * 4 * 2 * 2, p5_case, NULL);
 
